@@ -9,6 +9,7 @@
     `unreg n`    removes a command (by name or alias)                      → `true` / `false`
     `stput k v`  writes `k ↦ v` into the harness's own sub-state           → no value
     `stget k`    reads it                                                  → the value / no value
+    `vset k v`   writes the VARIABLE `k` (useful as `on_error` handler)    → no value
     every other registered command logs itself and consumes the next queued result.
   The runner theorems (`C03_refines` …) hold for EVERY command semantics `sem` and state type, so
   this instance is inside them; the harness registers commands with the same behaviour in the
@@ -49,6 +50,12 @@ def dynSem : CmdSem DynSt :=
       else if spec.name = "stput".toList then
         match args with
         | k :: v :: _ => some (.continue none, vars, { s with store := s.store.put k v })
+        | _ => some (.continue none, vars, s)
+      else if spec.name = "vset".toList then
+        -- writes a VARIABLE (`context.variables`): as the `on_error` handler (registered under
+        -- that alias) it receives [message, line, source] and sets the variable named like the message
+        match args with
+        | k :: v :: _ => some (.continue none, vars.set k v, s)
         | _ => some (.continue none, vars, s)
       else if spec.name = "stget".toList then
         match args with
